@@ -165,7 +165,7 @@ func Corruptions(spec *Spec, valid any) []Corruption {
 				return
 			}
 			out = append(out, Corruption{Value: rebuild([]any{}), Path: cp(path), Kind: "wrong type"})
-			for k := range m {
+			for _, k := range sortedAnyKeys(m) {
 				k := k
 				walk(s.Val, m[k], cp(path, pathKey(k)), func(with any) any {
 					n := map[any]any{}
